@@ -122,6 +122,15 @@ func TestC08FailedTx(t *testing.T) {
 				nc := rapid.IntRange(5, ev.Pick(15, 40)).Draw(t, "ncand")
 				for ci := 0; ci < nc; ci++ {
 					g := chain.NewTxGen(sim.W, view, candProfile)
+					if ci == 0 && sim.W.Runtime != nil {
+						if rs, err := view.RuntimeState(sim.W.Runtime.ID); err != nil {
+							rec.Label("probe-point:runtime=unreadable")
+						} else if rs.Suspended {
+							rec.Label("probe-point:runtime=suspended")
+						} else {
+							rec.Label("probe-point:runtime=active")
+						}
+					}
 					if ci == 0 && candProfile != "hostile" {
 						nv, nh := g.VaultStats()
 						rec.Label(fmt.Sprintf("probe-point:vaults=%d", min(nv, 3)))
